@@ -1303,6 +1303,105 @@ func ruleKeyedEntriesAgree(c *Ctx) {
 		pos   token.Pos
 	}
 	byKind := map[string]map[string]map[string]entry{} // kind -> proto -> key -> entry
+	mentionsRes := func(a string) bool {
+		return strings.Contains(a, "res.") || strings.Contains(a, "res)") || a == "res"
+	}
+	// collect walks a function for keyed sub-objects built from the kernel's response (named by
+	// sym), then the functions of the package it hands (parts of) the response to
+	var collect func(pk *packages.Package, fd *ast.FuncDecl, sym map[types.Object]string, outer []string, depth int, put func(key string, e entry))
+	collect = func(pk *packages.Package, fd *ast.FuncDecl, sym map[types.Object]string, outer []string, depth int, put func(key string, e entry)) {
+		info := pk.TypesInfo
+		pe := newProvEnv(pk, fd)
+		pe.sym = sym
+		pe.noAssertFacts = true
+		condsAt := func(at ast.Node) []string {
+			cs := append([]string(nil), outer...)
+			for _, a := range pe.enclosingConds(fd.Body, at) {
+				if mentionsRes(a) {
+					cs = append(cs, a)
+				}
+			}
+			return cs
+		}
+		ast.Inspect(fd.Body, func(nd ast.Node) bool {
+			var keyE, valE ast.Expr
+			var at ast.Node
+			switch x := nd.(type) {
+			case *ast.KeyValueExpr:
+				keyE, valE, at = x.Key, x.Value, x
+			case *ast.AssignStmt:
+				if len(x.Lhs) == 1 && len(x.Rhs) == 1 {
+					if ix, ok := ast.Unparen(x.Lhs[0]).(*ast.IndexExpr); ok {
+						keyE, valE, at = ix.Index, x.Rhs[0], x
+					}
+				}
+			case *ast.CallExpr:
+				// a function of the package that is handed (part of) the response
+				fn, ok := calleeOf(info, x).(*types.Func)
+				if !ok || fn.Pkg() != pk.Types || depth >= 2 {
+					return true
+				}
+				gd := funcDeclOf(pk, fn)
+				if gd == nil || gd.Body == nil || gd == fd {
+					return true
+				}
+				sig := fn.Type().(*types.Signature)
+				sym2 := map[types.Object]string{}
+				for k, a := range x.Args {
+					if k >= sig.Params().Len() {
+						break
+					}
+					if pv := pe.provD(a, 0); pv == "res" || strings.HasPrefix(pv, "res.") {
+						sym2[sig.Params().At(k)] = pv
+					}
+				}
+				if len(sym2) > 0 {
+					collect(pk, gd, sym2, condsAt(x), depth+1, put)
+				}
+				return true
+			}
+			if keyE == nil {
+				return true
+			}
+			kl, ok := ast.Unparen(keyE).(*ast.BasicLit)
+			if !ok || kl.Kind != token.STRING {
+				return true
+			}
+			v := ast.Unparen(valE)
+			if u, ok := v.(*ast.UnaryExpr); ok && u.Op == token.AND {
+				v = ast.Unparen(u.X)
+			}
+			sub, ok := v.(*ast.CompositeLit)
+			if !ok {
+				return true
+			}
+			// only sub-objects built from the kernel's response
+			fromRes := false
+			for _, el := range sub.Elts {
+				if ekv, ok := el.(*ast.KeyValueExpr); ok {
+					if _, isLit := ast.Unparen(ekv.Value).(*ast.CompositeLit); isLit {
+						continue
+					}
+					if pv := pe.provD(ekv.Value, 0); strings.Contains(pv, "res.") {
+						fromRes = true
+					}
+				}
+			}
+			if !fromRes {
+				return true
+			}
+			conds := condsAt(at)
+			sort.Strings(conds)
+			var uniq []string
+			for k, a := range conds {
+				if k == 0 || a != conds[k-1] {
+					uniq = append(uniq, a)
+				}
+			}
+			put(strings.Trim(kl.Value, "\"`"), entry{strings.Join(uniq, " ∧ "), at.Pos()})
+			return true
+		})
+	}
 	for _, pr := range []struct{ proto, pkg string }{{"http", pkgHttp}, {"grpc", pkgGrpc}} {
 		for _, r := range frontEndRequests(c.P, pr.proto, pr.pkg) {
 			if r.Kind == "?" || r.Decl == nil || r.Decl.Body == nil {
@@ -1325,63 +1424,15 @@ func ruleKeyedEntriesAgree(c *Ctx) {
 			if resObj == nil {
 				continue
 			}
-			pe := newProvEnv(r.Pk, r.Decl)
-			pe.sym = map[types.Object]string{resObj: "res"}
-			ast.Inspect(r.Decl.Body, func(nd ast.Node) bool {
-				var keyE, valE ast.Expr
-				var at ast.Node
-				switch x := nd.(type) {
-				case *ast.KeyValueExpr:
-					keyE, valE, at = x.Key, x.Value, x
-				case *ast.AssignStmt:
-					if len(x.Lhs) == 1 && len(x.Rhs) == 1 {
-						if ix, ok := ast.Unparen(x.Lhs[0]).(*ast.IndexExpr); ok {
-							keyE, valE, at = ix.Index, x.Rhs[0], x
-						}
-					}
+			kind, proto := r.Kind, pr.proto
+			collect(r.Pk, r.Decl, map[types.Object]string{resObj: "res"}, nil, 0, func(key string, e entry) {
+				if byKind[kind] == nil {
+					byKind[kind] = map[string]map[string]entry{}
 				}
-				if keyE == nil {
-					return true
+				if byKind[kind][proto] == nil {
+					byKind[kind][proto] = map[string]entry{}
 				}
-				kl, ok := ast.Unparen(keyE).(*ast.BasicLit)
-				if !ok || kl.Kind != token.STRING {
-					return true
-				}
-				v := ast.Unparen(valE)
-				if u, ok := v.(*ast.UnaryExpr); ok && u.Op == token.AND {
-					v = ast.Unparen(u.X)
-				}
-				sub, ok := v.(*ast.CompositeLit)
-				if !ok {
-					return true
-				}
-				// only sub-objects built from the kernel's response
-				fromRes := false
-				ast.Inspect(sub, func(y ast.Node) bool {
-					if id, ok := y.(*ast.Ident); ok && info.Uses[id] == resObj {
-						fromRes = true
-					}
-					return true
-				})
-				if !fromRes {
-					return true
-				}
-				var conds []string
-				for _, a := range pe.enclosingCondsStrict(r.Decl.Body, at) {
-					if strings.Contains(a, "res.") || strings.Contains(a, "res)") {
-						conds = append(conds, a)
-					}
-				}
-				sort.Strings(conds)
-				key := strings.Trim(kl.Value, "\"`")
-				if byKind[r.Kind] == nil {
-					byKind[r.Kind] = map[string]map[string]entry{}
-				}
-				if byKind[r.Kind][pr.proto] == nil {
-					byKind[r.Kind][pr.proto] = map[string]entry{}
-				}
-				byKind[r.Kind][pr.proto][key] = entry{strings.Join(conds, " ∧ "), at.Pos()}
-				return true
+				byKind[kind][proto][key] = e
 			})
 		}
 	}
